@@ -166,6 +166,12 @@ class Backfilling(TMGRSchedulingComponent):
 
                 info = self._pilots[pid]['info']
 
+                if not info:
+                    # pilot is only known from state notifications, it was
+                    # never added to this scheduler
+                    self._log.debug('upd task %s pilot not added', uid)
+                    continue
+
                 if uid in info['done']:
                     # we don't need further state udates
                     self._log.debug('upd task %s in done', uid)
@@ -177,10 +183,12 @@ class Backfilling(TMGRSchedulingComponent):
                     continue
 
                 if uid not in info['tasks']:
-                    # this contradicts the task's assignment
+                    # the task was not placed by this scheduler instance (it is
+                    # early-bound, belongs to another task manager, or was
+                    # placed before the pilot got re-added): it is not part of
+                    # this pilot's usage accounting
                     self._log.debug('upd task  %s not in tasks', uid)
-                    self._log.error('bf: task %s on %s inconsistent', uid, pid)
-                    raise RuntimeError('inconsistent scheduler state')
+                    continue
 
                 # this task is now considered done
                 info['done'].append(uid)
